@@ -164,6 +164,14 @@ def classify(ctx, s: Site):
                 return
         pairs = dual.match(a, b)
         if pairs is None:
+            # named intermediates inside the arms (`t = nanmin(x) + d; best = nanmin(y); r = t < best`): substitute the
+            # arm-local single definitions into the arm's last statement and compare those
+            a2, b2 = _inline_arm_temps(a, s.func.node, s.node), _inline_arm_temps(b, s.func.node, s.node)
+            if a2 is not None and b2 is not None:
+                pairs = dual.match(a2, b2)
+                if pairs is not None:
+                    a, b = a2, b2
+        if pairs is None:
             # sibling-callee form etc. must still match structurally; anything else is unknown
             if dual.order_sensitive(a) or dual.order_sensitive(b):
                 # same shape but an unmirrored part? try to explain: report as violation only
@@ -178,6 +186,28 @@ def classify(ctx, s: Site):
         _check_pairs(ctx, s, pairs, a, b, loc)
         return
     raise AnalysisError(f"R13.1: direction comparison `{norm(s.node)[:60]}` in {f.short} is not a branch condition")
+
+
+def _inline_arm_temps(arm, func_node, site_node):
+    """[t1 = e1, t2 = e2(t1), .., X(t1, t2)] -> [X(e1, e2(e1))] when every ti is a plain name bound once in the arm and
+    used nowhere outside the arm; None when the arm is not of that shape."""
+    import copy as _copy
+    from sa.expr import _Subst
+    if len(arm) < 2 or not all(isinstance(st, ast.Assign) and len(st.targets) == 1 and isinstance(st.targets[0], ast.Name) for st in arm[:-1]):
+        return None
+    # (uses in the other arm of the same site are that arm's own definitions)
+    inside = {id(x) for x in ast.walk(site_node)}
+    defs = {}
+    for st in arm[:-1]:
+        t = st.targets[0].id
+        if t in defs:
+            return None
+        # used outside the arm?
+        if any(isinstance(x, ast.Name) and x.id == t and id(x) not in inside for x in ast.walk(func_node)):
+            return None
+        defs[t] = _Subst(dict(defs), 3).visit(_copy.deepcopy(st.value))
+    last = _Subst(defs, 3).visit(_copy.deepcopy(arm[-1]))
+    return [last]
 
 
 def _enum_like(e):
